@@ -9,13 +9,16 @@ from .. import canon, gen
 from ..core import call_real
 
 ID = "C03"
-LEAN_MODULE = "CKT.Props.C03Sem"
+LEAN_MODULE = "CKT.Props.C03PTM"
 THEOREMS = [
     "CKT.C03.sum_markerFreq", "CKT.C03.layout_length", "CKT.C03.width_eq", "CKT.C03.layout_at_finalPos",
     "CKT.C03.layout_only_finalPos", "CKT.C03.basePos_succ", "CKT.C03.basePos_mono", "CKT.C03.transformGo_closed",
     "CKT.C03.posAfter_in_range", "CKT.C03.posAfter_injective", "CKT.C03.move_target_in_range",
     # semantic half, for every pair of semantics obeying the four representation laws (C03Sem)
     "CKT.C03Sem.transformGo_rep", "CKT.C03Sem.transform_preserves_expectations", "CKT.C03Sem.classical",
+    # the four laws proved for the Pauli-expectation semantics of dynamic circuits (any gate matrices; Move = reset; swap): T03.3 without assumed laws
+    "CKT.Sem.applyL_comm", "CKT.Sem.prim_comm", "CKT.C03PTM.applyL_rep", "CKT.C03PTM.ap_rep", "CKT.C03PTM.move_rep", "CKT.C03PTM.init_rep",
+    "CKT.C03PTM.ptm", "CKT.C03PTM.transform_preserves_expectations_ptm", "CKT.Sem.resetM_is_channel_ptm", "CKT.Sem.swapM_is_channel_ptm",
 ]
 RULE = ("circuits on 1-4 qubits (one or several named registers, optional classical registers) with 0-4 wire-cut markers in random "
         "interleavings, CutWire instances or name-only 'cut_wire' gates (thorough: every interleaving of the marker pattern across qubits for small shapes), both factories (Move / wrapped Move); "
